@@ -59,6 +59,9 @@ CLAIMED = {
  "C12": ("who-may-call (Visit vs VisitAll) + universally-quantified reaching-condition check of the visit callback + def-use provenance of every registration default + kind-arm/type sibling table + dominance of the overflow helper (go/ssa)",
          "Decides for both flag packages: exactly one Visit and no VisitAll; the visit callback returns without writing only for an unknown name or unreadable value; Value reverse-translates the registration-time all-unset struct with its transformer; every registration's default derives from transform.GetField(sf, tmpl); in each kind arm Convert target, asserted type and arm kind agree; (std flag) the narrowing reflect conversion is dominated by willOverflow==false whose arms cover all int/uint/float/complex kinds with the matching Overflow method and an overflow is returned as the error; helper Sets accumulate after the first set; source-specific tag precedence.",
          "Not decided: flag-name strings and parsed values. Noted, not alarmed: pflag registers a 64-bit flag for uintptr without a range check (only matters on 32-bit targets)."),
+ "C16": ("panic classification with per-class safety checks + reflect-kind abstract interpretation (dominating kind tests evaluated over all kinds, constructors, call-site propagation) + type-tie rules for Set/Convert/Append/SetMapIndex + index provenance + loop progress (go/ssa)",
+         "Decides a guard discipline on the operations of the repository's own code that can panic or spin: all 19 panic statements are classified and their class condition checked; every reflect IsNil/Elem receiver is restricted to the kinds for which the call is defined; every reflect Set/Convert/Append/SetMapIndex in the parsing/transformation packages and the flag callbacks is tied to its destination type by a dominating test or by construction; string/slice indexing in the parsers and case converters has bounded provenance; every non-range loop has a recognised progress argument. 23 of ~160 sites are accepted through a reviewed idiom table (listed in the evidence as trivial obligations with their reasons).",
+         "Not a proof of totality: third-party parsers are trusted; stack depth and reflect misuse outside the listed operations are not covered; idiom-table entries are reviewed by hand, not derived."),
 }
 
 NOT_YET = {}
